@@ -644,9 +644,31 @@ func snap(ep tcpip.Endpoint, s *side, peer *side) M {
 	return m
 }
 
-var issMu sync.Mutex // hook H4 is process-global: scenarios that pin an ISS are serialised around connect
+// hook H4 (the source of pkg/rand) is process-global: a scenario that pins its ISS holds issRW exclusively from before its
+// stacks are created until both ends are up; every other scenario holds it shared over the same span, so that no other
+// stack draws random bytes while the pinned value is installed (the source serves exactly one 4-byte request: the active
+// opener's handshake.resetState, which runs in the protocol goroutine after Connect returned)
+var issRW sync.RWMutex
 
 func runPair(sc scenario) []M {
+	pin := len(sc.A.ISS) == 2
+	if pin {
+		issRW.Lock()
+	} else {
+		issRW.RLock()
+	}
+	var relOnce sync.Once
+	release := func() {
+		relOnce.Do(func() {
+			if pin {
+				vrand.VerifSetSource(nil)
+				issRW.Unlock()
+			} else {
+				issRW.RUnlock()
+			}
+		})
+	}
+	defer release()
 	lg := &elog{t0: time.Now()}
 	clock := wire.NewClock()
 	mtu := uint32(sc.MTU)
@@ -740,12 +762,11 @@ func runPair(sc scenario) []M {
 	p.a.wq.EventRegister(&we, waiter.EventOut|waiter.EventHUp|waiter.EventErr)
 	lwe, lch := waiter.NewChannelEntry(nil)
 	lwq.EventRegister(&lwe, waiter.EventIn)
-	pin := len(sc.A.ISS) == 2
 	if pin {
-		issMu.Lock()
 		iss := uint32(sc.A.ISS[0])<<16 | uint32(sc.A.ISS[1])
+		var served int32
 		vrand.VerifSetSource(func(b []byte) bool {
-			if len(b) != 4 {
+			if len(b) != 4 || !atomic.CompareAndSwapInt32(&served, 0, 1) {
 				return false
 			}
 			b[0], b[1], b[2], b[3] = byte(iss), byte(iss>>8), byte(iss>>16), byte(iss>>24)
@@ -754,11 +775,6 @@ func runPair(sc scenario) []M {
 	}
 	lg.add(M{"ev": "connect", "e": "a"})
 	cerr := p.a.ep.Connect(tcpip.FullAddress{Addr: ab, Port: 80})
-	if pin {
-		// the ISS is drawn inside Connect (handshake construction)
-		vrand.VerifSetSource(nil)
-		issMu.Unlock()
-	}
 	deadline := time.Duration(sc.Deadline) * time.Millisecond
 	if deadline == 0 {
 		deadline = 30 * time.Second
@@ -797,6 +813,7 @@ func runPair(sc scenario) []M {
 	}
 	lwq.EventUnregister(&lwe)
 	lg.add(M{"ev": "up", "e": "b", "err": ""})
+	release()
 	var wg sync.WaitGroup
 	wg.Add(4)
 	go p.writer(p.a, &wg)
